@@ -26,7 +26,7 @@ REQUIRED_FEATURES = ["op:create-a", "op:create-w", "op:recreate-occupied", "op:c
                      "op:ln-hard", "op:ln-soft", "op:ln-external", "op:cp-onto-occupied", "op:cp-overwrite",
                      "via:cli", "via:api", "uri:no-leading-slash", "is_cooler:missing-group", "is_cooler:missing-file",
                      "is_cooler:non-hdf5", "is_cooler:dataset-path", "op:cp-to-root", "op:mv-onto-occupied",
-                     "op:ln-onto-occupied"]
+                     "op:ln-onto-occupied", "op:mv-spelling", "op:samefile-overwrite"]
 
 PATHS = ["/a", "/b", "/g/x", "/g/y", "/h", "/k/deep/z"]
 
@@ -141,7 +141,8 @@ def one_history(ctx, cid, rng):
         changed = False
         for step in range(nsteps + 2):
             op = ["create", "create", "cp", "mv", "ln", "lns", "ext", "recreate", "cp_occupied", "cp_overwrite", "create_w",
-                  "cp_root", "mv_occupied", "ln_occupied"][int(rng.integers(14))] if step >= 2 else "create"
+                  "cp_root", "mv_occupied", "ln_occupied", "mv_spelling", "samefile_overwrite"][int(rng.integers(16))] \
+                if step >= 2 else "create"
             f = files[int(rng.integers(2))] if step >= 2 else files[step]
             via = "cli" if rng.random() < 0.35 else "api"
             live = [(ff, p) for ff in files for p in M.names[ff] if M.resolve(ff, p) is not None]
@@ -287,6 +288,45 @@ def one_history(ctx, cid, rng):
                             M.names[sf][dp] = ("obj", M.resolve(sf, sp))
                     elif raised is None:
                         c.fail(f"{op}-replaced-foreign-group", f"{op[:2]} {rel(su)} onto the unrelated group /foreign did not raise")
+                elif op in ("mv_spelling", "samefile_overwrite"):
+                    # two requests a file-level tool may refuse; whatever it answers, nothing else may change:
+                    #  mv_spelling         mv within one file whose two URIs spell the file path differently
+                    #  samefile_overwrite  cp within one file with overwrite=True ("truncate the destination FILE")
+                    cands = [(ff, p) for ff, p in srcs if (ff, p) not in M.link_targets()]
+                    if not cands:
+                        continue
+                    sf, sp = cands[int(rng.integers(len(cands)))]
+                    dp = PATHS[int(rng.integers(len(PATHS)))]
+                    if M.occupied(sf, dp):
+                        continue
+                    su, du = uri(rng, sf, sp, c), uri(rng, sf, dp, c)
+                    if op == "mv_spelling":
+                        dn, bn = os.path.split(sf)
+                        alt = [os.path.join(dn, ".", bn), os.path.join(dn, "..", os.path.basename(dn), bn),
+                               os.path.join(dn, "link_" + bn)][int(rng.integers(3))]
+                        if "link_" in alt and not os.path.lexists(alt):
+                            os.symlink(sf, alt)
+                        du = alt + "::" + dp
+                    raised = None
+                    try:
+                        if via == "cli":
+                            r = runner.invoke(cli, ["mv", su, du] if op == "mv_spelling" else ["cp", "-w", su, du])
+                            if r.exit_code != 0:
+                                raised = type(r.exception).__name__
+                        elif op == "mv_spelling":
+                            fileops.mv(su, du)
+                        else:
+                            fileops.cp(su, du, overwrite=True)
+                    except Exception as e:  # noqa
+                        raised = type(e).__name__
+                    rec.update(src=rel(su), dst=os.path.relpath(du, d) if op == "mv_spelling" else rel(du), raised=raised)
+                    c.feature(f"op:{op.replace('_', '-')}", f"op:{op.replace('_', '-')}:{'refused' if raised else 'answered'}")
+                    if raised is None:
+                        if op == "mv_spelling":
+                            M.names[sf][dp] = M.names[sf].pop(sp)          # answered: then it is a move
+                        else:
+                            M.names[sf][dp] = ("obj", M.new_obj(M.content[M.resolve(sf, sp)]))   # answered: then a copy
+                        changed = True
                 elif op == "mv":
                     cands = [(ff, p) for ff, p in srcs if (ff, p) not in M.link_targets()]
                     if not cands:
